@@ -50,6 +50,7 @@ func TestMain(m *testing.M) {
 type Write struct {
 	Author int `json:"a"`
 	Len    int `json:"l"`
+	Pref   int `json:"p,omitempty"` // account Pref-1 writes if it may (0: no preference)
 }
 
 type Step struct {
@@ -102,21 +103,26 @@ type treeView struct {
 	mem  *memStorage
 	tree objecttree.ObjectTree
 	have int
+	// outFed: this open tree was handed changes while its account held no permission and has
+	// not taken part in anything since the account was admitted again; outGens = number of
+	// generations at that hand-over
+	outFed  bool
+	outGens int
 }
 
 type env struct {
-	c       Case
-	w       *aclgen.World
-	gens    []gen
-	truth   map[string][]byte // generation id -> key bytes all members agree on
-	idOf    map[string]int    // marshalled identity -> account
-	invites map[*aclgen.InviteInfo]*inviteTrack
-	invList []*inviteTrack
-	fresh   [][]list.AclList // [account][0 full, 1 client]
+	c           Case
+	w           *aclgen.World
+	gens        []gen
+	truth       map[string][]byte // generation id -> key bytes all members agree on
+	idOf        map[string]int    // marshalled identity -> account
+	invites     map[*aclgen.InviteInfo]*inviteTrack
+	invList     []*inviteTrack
+	fresh       [][]list.AclList // [account][0 full, 1 client]
 	oldKeyBlobs []blob
-	classes map[string]bool
+	classes     map[string]bool
 	// statistics
-	nViews, nPos, nNeg, nAttack, nAttackOpen, nRawRot, nWrites, nTreeIter, nSkipped, nForged, nInviteHolder int
+	nViews, nPos, nNeg, nAttack, nAttackOpen, nRawRot, nWrites, nTreeIter, nSkipped, nForged int
 	removedChecked                                                                           bool
 	hadLeaveRequest, authored                                                                []bool
 	// tree
@@ -529,7 +535,7 @@ func (e *env) attack(a *attacker, r int, blobs []blob, forbidden []gen) error {
 		}
 		sort.Strings(symOrder)
 		for _, b := range blobs {
-			if round == 0 && len(b.data) >= 48 {
+			if round == 0 && a.priv != nil && len(b.data) >= 48 {
 				e.nAttack++
 				if p, ok := safeDecrypt(a.priv.Decrypt, b.data); ok {
 					e.nAttackOpen++
@@ -591,10 +597,10 @@ func (e *env) attacks(r int, blobs []blob) error {
 			e.oldKeyBlobs = append(e.oldKeyBlobs, b)
 		}
 	}
-	// live open invites: the statement counts a revoked invite among the parties that "hold
-	// none", so a LIVE open invite holds one — its key holder derives, from the raw log and the
-	// invite private key alone, the current read key and every earlier one (that is what makes
-	// a join through it possible)
+	// live open invites: only what their key holder can derive is accumulated here — it is what
+	// the holder legitimately knows once the invite is revoked. Nothing is demanded of a live
+	// invite: an invite is not an account holding a permission (whether a join through it
+	// succeeds is outside the statement; an ACCEPTED join is judged by the member oracles).
 	for _, it := range e.invList {
 		if !it.inv.Anyone || !it.inv.Live {
 			continue
@@ -608,13 +614,6 @@ func (e *env) attacks(r int, blobs []blob) error {
 		if err := e.attack(&attacker{name: it.att.name, syms: it.att.syms}, r, e.oldKeyBlobs, nil); err != nil {
 			return err
 		}
-		for gi, g := range e.gens {
-			if _, ok := it.att.syms[hex.EncodeToString(e.truth[g.id])]; !ok {
-				return fmt.Errorf("after record %d (%s): the live open invite created by record %d does not give its holder the read key of generation %d/%d (introduced by record %d): no ciphertext addressed to the invite key opens to it, nobody can join through the invite", r, e.opText(), it.created, gi+1, len(e.gens), g.rec)
-			}
-		}
-		e.nInviteHolder++
-		e.classes["live-open-invite-holder-derives-all-generations"] = true
 	}
 	// revoked open invites: the holder of the invite key
 	for _, it := range e.invList {
